@@ -388,7 +388,13 @@ class Tensor:
                     stack.append((child, False))
 
         # Go one tensor at a time and apply the chain rule to get its gradient
-        self.grad = grad
+        if not self.matches_shape(grad):
+            raise RuntimeError(f"Attempt to assign grad ({grad.shape}) to  a Tensor ({self.shape}) that has a different shape")
+        seed = grad.data.astype(self.dtype) # owned copy, never the caller's array
+        if self.is_leaf and self._grad is not None:
+            self._grad += seed
+        else:
+            self._grad = seed
         for i, node in enumerate(reversed(ordered_nodes)):
             if node.grad_fn is not None:
                 #print(node.grad_fn)
